@@ -6,7 +6,7 @@ from .panics import arith_traps
 from . import common
 
 EXPLANATION = (
-    "Decides three structural clauses: (R1) in the codec modules and the compressed column/adjacency code no trapping "
+    "Decides structural clauses: (R7) a reusable encoder's clear()/reset() resets every field its accumulating methods write; (R1) in the codec modules and the compressed column/adjacency code no trapping "
     "+, -, * or unary minus is applied to two data-dependent operands of payload integer type (differences and sums "
     "of stored values must use wrapping/checked/saturating forms), modulo a reasoned exception table; (R2) every "
     "read-only lookup of a PropertyColumn that reads the hot `values` part also consults the `compressed` part; "
@@ -79,9 +79,46 @@ def r1(ctx, P, mods, floor_fn, floor_cand):
     ctx.floor("R1", ncand, floor_cand, "payload arithmetic candidates")
 
 
+def clear_resets_everything(ctx, P, rule):
+    """An encoder that is reused after clear()/reset() must start from the state new() gives: every field that an
+    accumulating method writes is also reset. A map left behind (string -> code) makes the next batch emit codes of the
+    discarded batch, and decoding returns other strings than were encoded."""
+    from .c17 import field_profile
+    from collections import defaultdict
+    M = defaultdict(dict)
+    for f in P.fns.values():
+        if f.kind == "closure" or not f.impl_self or f.impl_trait or "::tests::" in f.id:
+            continue
+        if f.impl_self.startswith(("grafeo_core::storage::", "grafeo_core::graph::lpg::property", "grafeo_core::index::")):
+            M[f.impl_self][f.id.split("::")[-1]] = f
+    n = 0
+    for T, ms in sorted(M.items()):
+        for cn in ("clear", "reset"):
+            if cn not in ms:
+                continue
+            cw = {k for k, v in field_profile(P, ms[cn], T, root=1).items() if v["w"]}
+            if not cw:
+                continue        # interior mutability (locks / atomics): not a field-assignment type
+            acc = {}
+            for nm, g in ms.items():
+                if nm in ("new", "default", "clear", "reset") or nm.startswith(("with_", "from_")):
+                    continue
+                for k, v in field_profile(P, g, T, root=1).items():
+                    if v["w"]:
+                        acc.setdefault(k, set()).add(nm)
+            n += 1
+            for k in sorted(acc):
+                ctx.ob(rule, "%s::%s#%s" % (T.split("::")[-1], cn, k), k in cw,
+                       what="%s::%s does not reset `%s`, which %s write(s): a reused encoder carries state of the discarded batch into "
+                            "the next one, and what it encodes no longer decodes to the input" % (T.split("::")[-1], cn, k, ", ".join(sorted(acc[k]))),
+                       where=ms[cn].loc())
+    ctx.floor(rule, n, 1, "reusable encoders with a clear()/reset()")
+
+
 def run(ctx):
     P = ctx.program()
     E = ctx.effects()
+    clear_resets_everything(ctx, P, "R7")
     # ---- R1 / R5 on the codec modules of the main configuration, and on the succinct structures, which only exist
     # under the `succinct-indexes` feature (no crate of the workspace enables it, so the main build never contains them)
     r1(ctx, P, MODS, 150, 2)
